@@ -82,7 +82,7 @@ def type_of(classes):
 
 
 def render_source(case):
-    lines = []
+    lines = ["tt = T[0]"]                      # the tuple type T always exists in the program
     for k in sorted({s["k"] for s in case["srcs"] if s["kind"] == "proc"}):
         if case["local"]:
             lines.append("p%d = @{ !'int { | =0 => [1, 0] __integer_divide__ | =x => [x, 1000] __integer_add__ } }" % k)
@@ -604,13 +604,15 @@ class Runner:
                 if not completed:
                     if ran in ("0", "-"):
                         n_steps = 0
+                        new_err = d["err"] is not None and (prev is None or prev["err"] is None) and not helpers
                         if entries >= 1:
-                            n_steps = entries
+                            # (+1: a filter called in this slice failed inside its frame in the same slice)
+                            n_steps = entries + (1 if new_err else 0)
                         elif not did:
                             n_steps = 1
                         elif prev is not None and prev["err"] is not None:
                             n_steps = 1               # a dead process leaves the queue
-                        elif d["err"] is not None and (prev is None or prev["err"] is None) and not helpers:
+                        elif new_err:
                             n_steps = 1               # the filter failed inside its frame
                         evs += ["(step %d)" % now] * n_steps
                         st["entries"] += entries
@@ -739,16 +741,18 @@ class Runner:
                     a["oracle_failures"].append(dict(oracle="process-result-is-select-value", real=vals[0], value=comp["value"]))
                 if ok and comp["value"] is None:
                     comp["value"] = vals[0]
-                # the drain sees exactly the remaining mailbox, in order, then nil
+                # the drains (subsequent receives) see exactly the remaining mailbox, in order: what they
+                # took, followed by what is still in the mailbox at the end, is everything delivered
+                # minus the message the select took
                 if ok:
                     exp = list(a["delivered"])
                     tv = vals[0]
                     if tv[0] == "m" and (tv[1], tv[2]) in exp:
                         exp.remove((tv[1], tv[2]))
-                    expd = [("m", m[0], m[1]) for m in exp][:case["drain"]]
-                    expd += [("nil",)] * (case["drain"] - len(expd))
-                    if vals[1:] != expd:
-                        a["oracle_failures"].append(dict(oracle="subsequent-receives-see-remaining-mailbox", expected=expd, real=vals[1:]))
+                    expd = [("m", m[0], m[1]) for m in exp]
+                    got_seq = [v for v in vals[1:] if v != ("nil",)] + [("m", m[0], m[1]) for m in fin["mb"]]
+                    if got_seq != expd:
+                        a["oracle_failures"].append(dict(oracle="subsequent-receives-see-remaining-mailbox", expected=expd, real=got_seq))
             else:
                 v = real_value(got)
                 if comp["value"] is None:
@@ -813,9 +817,11 @@ class Runner:
             if "panic" in md:
                 mism = ("model panicked / stopped", cp, md)
                 break
-            keys = ["mb", "aw", "sel"]
+            keys = ["aw", "sel"]
             if not cp["completed"]:
                 keys += ["q", "s", "nt"]
+            if not (cp["completed"] and case["drain"]):
+                keys.append("mb")             # the drains of the epilogue empty the real mailbox
             bad = [k for k in keys if _norm(rd[k]) != _norm(md[k])]
             # error: class or awaited-k tag; the helper's own error in local mode has no tag
             re_, me_ = rd["err"], md["err"]
@@ -926,6 +932,19 @@ def _jsonable(x):
 
 
 # ------------------------------------------------------------------ twins: the verdict is only a verdict
+def twin_safe(case):
+    """A copy of the history in which every step starts at an entry boundary (an `ff` before each
+    step), so that the length of a filter body cannot change which instruction a blind step hits."""
+    c = dict(case)
+    ops = []
+    for o in case["ops"]:
+        if o[0] == "step":
+            ops.append(("ff", o[2]))
+        ops.append(o)
+    c["ops"] = ops
+    return c
+
+
 def twin_of(rng, case):
     t = dict(case)
     t["verdicts"] = {k: (("t", v[1] + 1 + rng.randrange(len(TRUTHY) - 1)) if v[0] == "t" else v) for k, v in case["verdicts"].items()}
@@ -1146,7 +1165,8 @@ def run(ctx):
         cases = [gen_case(ctx.rng) for _ in range(size)]
         runner.batch(cases)
         # twins: same case, different non-nil filter results -> identical observable run
-        tw = [(c, twin_of(ctx.rng, c)) for c in cases[:max(20, size // 10)] if any(v[0] == "t" for v in c["verdicts"].values())]
+        tw = [(twin_safe(c), twin_of(ctx.rng, twin_safe(c))) for c in cases[:max(40, size // 5)]
+              if not c["local"] and any(v[0] == "t" for v in c["verdicts"].values())]
         if tw:
             _, o1 = ctx.run_sharded(qs, [harness_line(c, fixed45) for c, _ in tw])
             _, o2 = ctx.run_sharded(qs, [harness_line(t, fixed45) for _, t in tw])
